@@ -1,1 +1,13 @@
-// (scratch experiments removed)
+// scratch experiments
+#[kani::proof]
+#[kani::unwind(5)]
+fn exp_other_canceled() {
+    let e = std::io::Error::other("Canceled");
+    std::mem::forget(e);
+}
+#[kani::proof]
+#[kani::unwind(5)]
+fn exp_new_timeout() {
+    let e = std::io::Error::new(std::io::ErrorKind::TimedOut, "timeout");
+    std::mem::forget(e);
+}
